@@ -210,15 +210,23 @@ def weight_of(body):
         if not (isinstance(st, ast.Assign) and ast.unparse(st.targets[0]) == "SIJ"):
             raise Unrecognised("SIJ statement " + ast.unparse(st)[:80])
         e = st.value
+        op = ".mul"
+
+        def strip_sum(e):
+            if isinstance(e, ast.Call) and isinstance(e.func, ast.Attribute) and e.func.attr == "sum":
+                if [(k.arg, ast.unparse(k.value)) for k in e.keywords] != [("axis", "1")] or e.args:
+                    raise Unrecognised("SIJ sum arguments")
+                return e.func.value, True
+            return e, False
+        # `(…).sum(axis=1).real` and `(…).real.sum(axis=1)` are the same numbers (the real part is additive)
+        e, summed = strip_sum(e)
         if not (isinstance(e, ast.Attribute) and e.attr == "real"):
             raise Unrecognised("SIJ is not the real part of a product: " + ast.unparse(e)[:80])
         e = e.value
-        op = ".mul"
-        if isinstance(e, ast.Call) and isinstance(e.func, ast.Attribute) and e.func.attr == "sum":
-            if [(k.arg, ast.unparse(k.value)) for k in e.keywords] != [("axis", "1")] or e.args:
-                raise Unrecognised("SIJ sum arguments")
+        if not summed:
+            e, summed = strip_sum(e)
+        if summed:
             op = ".dot"
-            e = e.func.value
         if not (isinstance(e, ast.BinOp) and isinstance(e.op, ast.Mult)):
             raise Unrecognised("SIJ product " + ast.unparse(e)[:80])
         return f"{{ op := {op}, left := {operand(e.left, op == '.dot')}, right := {operand(e.right, op == '.dot')} }}"
